@@ -243,6 +243,24 @@ class Checker(C.BaseChecker):
                 self.report(st, "c07:keys", f"{p}.meta.keys()={keys}, attached: {sorted(att)}", F_GET)
             else:
                 self.ok()
+            # a second, long-lived handle on the same node (obtained earlier, its .meta already used) must show the same
+            # (watchers are dropped whenever something other than attach/detach happened, see contlib.apply_cop)
+            watchers = getattr(st.h, "watchers", None)
+            if watchers is not None:
+                w = watchers.get(p)
+                if w is None:
+                    w = watchers[p] = C.node_of(mc, p)
+                    w.meta.keys()
+                else:
+                    try:
+                        wk = sorted(w.meta.keys())
+                        wg = {n: (w.meta.get(n) is not None) for n in att}
+                    except Exception as e:  # noqa
+                        wk, wg = f"!{type(e).__name__}: {e}", {}
+                    if wk != sorted(att) or not all(wg.values()):
+                        self.report(st, "c07:second-handle-stale", f"a handle on {p} obtained before the last attach/detach shows keys {wk} / get {wg}, attached now: {sorted(att)}", F_GET)
+                    else:
+                        self.ok()
             if len(meta) != len(att):
                 self.report(st, "c07:len", f"len({p}.meta)={len(meta)}, attached: {len(att)}", F_GET)
             for n, (v, idx) in sorted(att.items()):
